@@ -10,7 +10,7 @@ from sim import shrink as shr
 
 PROP = 'C04'
 QUICK_RUNS = 60000
-THOROUGH_RUNS = 150000
+THOROUGH_RUNS = 1500000
 QUICK_WALL = 110
 THOROUGH_WALL = 1500
 CHUNK = 25
